@@ -1,4 +1,4 @@
-CONSTANT Cfg <- Cfg_ts1
+CONSTANT CfgSet <- S_ts1
 INIT MCInit
 NEXT Next
 CHECK_DEADLOCK FALSE
